@@ -536,3 +536,20 @@ def kernel_probe(p):
     if want_name in found:
         return dict(status="confirmed", failing_input=found[want_name].get("call", want_name), problem=found[want_name], n_mismatches_in_sequence=len(found))
     return dict(status="not-reproduced", detail="this kernel result agrees with Cox-de Boor natively (%d other mismatches in the sequence)" % len(found))
+
+
+def generated_fault_probe(p):
+    """C20: the generated specification with its injected fault on the real code: must raise before an NLP exists"""
+    from contracts import randspec
+    from contracts.spec import Spec
+    i = p["index"]
+    kw, fault = randspec.make_fault(i, randspec.make(i))
+    try:
+        with contextlib.redirect_stdout(io.StringIO()):
+            spec = Spec(fault=fault, **kw)
+            spec.build()
+            spec.ocp._transcribed
+    except Exception as e:
+        return dict(status="not-reproduced", detail="rejected with %s: %s" % (type(e).__name__, str(e)[:150]))
+    return dict(status="confirmed", failing_input=dict(generated_specification=i, fault=fault or "algebraic-with-explicit-scheme", spec={k: str(v)[:80] for k, v in kw.items()}),
+                observed="declared and transcribed without any exception", expected="an exception at declaration or transcription")
